@@ -1754,7 +1754,7 @@ package http2
 //@ # later changes are applied as deltas - not with whatever the last SETTINGS frame happened to carry (C07)
 //@ # (since SETTINGS parameters that are not named keep their value, the window field of the remembered server settings is
 //@ # that same initial window; either source is right)
-//@ assert@call:(*Mutex).Lock#1 seed: pb != nil && (pb.window == c.streamWindow || pb.window == c.serverS.windowSize) && pb.ctx == ctx
+//@ assert@call:(*Mutex).Lock#1 seed: pb != nil && (pb.window == c.streamWindow || pb.window == c.serverS.windowSize || pb.window == c.serverS.windowSize - 4294967296) && pb.ctx == ctx
 //@ # the stream counts as open only once its HEADERS frame has been written
 //@ ensures counted: c.openStreams == old(c.openStreams) || c.openStreams == old(c.openStreams) + 1
 //@ ensures enc: c.enc == old(c.enc) && hpackOK(c.enc) && c.bw == old(c.bw)
